@@ -126,6 +126,23 @@ func evalC19Sel(c c19Sel, o *Obs) error {
 	if len(got) >= 2 {
 		o.NT()
 	}
+	// selecting again from the same list gives the same coins, and leaves the first result alone
+	if res2, err2 := sel.CoinSelect(bchutil.Amount(c.Target), coins); err2 != nil {
+		return fmt.Errorf("%s: second selection with the same arguments failed: %v", desc, err2)
+	} else {
+		g2 := res2.Coins()
+		if len(g2) != len(got) {
+			return fmt.Errorf("%s: second selection with the same arguments returns %d coins, the first returned %d", desc, len(g2), len(got))
+		}
+		for i := range g2 {
+			if g2[i].ValueAge() != got[i].ValueAge() || g2[i].Value() != got[i].Value() {
+				return fmt.Errorf("%s: second selection with the same arguments differs at position %d", desc, i)
+			}
+		}
+		if again := res.Coins(); len(again) != len(got) {
+			return fmt.Errorf("%s: the first selection changed after selecting again", desc)
+		}
+	}
 	o.Class("C19:" + c.Selector + "-selected")
 	// validity
 	seen := map[int]bool{}
